@@ -54,14 +54,22 @@ def collapse(clauses, name, note=""):
 
 
 def guard(fn):
-    """run an obligation group, turning engine exceptions into 'undecided'"""
+    """run an obligation group, turning engine exceptions into 'undecided' (named <property>.<group> so that the
+    replay table of the property applies to it)"""
+    cname = "%s.%s" % ((fn.__module__ or "").split(".")[-1], fn.__name__)
+
     def run(ctx):
         try:
             return fn(ctx)
         except (ModelError,) as e:
-            return [Clause(fn.__name__, "undecided", "", "%s: %s" % (type(e).__name__, e))]
+            return [Clause(cname, "undecided", "", "%s: %s" % (type(e).__name__, e))]
         except RecursionError:
-            return [Clause(fn.__name__, "undecided", "", "engine limit: term construction exceeded the recursion limit")]
+            return [Clause(cname, "undecided", "", "engine limit: term construction exceeded the recursion limit")]
+        except (KeyError, AttributeError, TypeError, IndexError, ValueError) as e:
+            # the obligation generator itself could not cope with the shape of the code (a renamed private field, a changed
+            # signature, ...): nothing is decided by that; the native replay search still gets its turn
+            import traceback
+            return [Clause(cname, "undecided", "", "obligation generator limit: %s: %s [%s]" % (type(e).__name__, e, traceback.format_exc()[-300:].replace("\n", " | ")))]
     run.__name__ = fn.__name__
     return run
 
